@@ -163,7 +163,12 @@ impl<T> SocksRequest<T> {
             }
             TargetAddress::SocketAddr(a) => {
                 if let IpAddr::V4(v4) = a.ip() {
-                    (v4.octets(), a.port(), None)
+                    let o = v4.octets();
+                    if o[..3] == [0, 0, 0] && o[3] != 0 {
+                        // 0.0.0.x announces a SOCKS4a host name: sent as an address it would make the server wait for one
+                        bail!("address can not be carried in socks4: {}", self.target)
+                    }
+                    (o, a.port(), None)
                 } else {
                     bail!("ipv6 not supported in socks4: {}", self.target)
                 }
